@@ -109,6 +109,7 @@ fn main() {
         "C05" => Bias::C05,
         "C13" => Bias::C13,
         "C06" => Bias::C03,
+        "C14" => Bias::C03,
         _ => Bias::C01,
     };
     let header = "From Coq Require Import List ZArith NArith.\nImport ListNotations.\nRequire Import Verif.Base.Cases Verif.Egg.Model Verif.Egg.Rules.\n";
@@ -183,13 +184,16 @@ fn main() {
     //      and values, so only the container dirty-id closure re-stamps it for semi-naive
     //      evaluation. Raw text programs, semi-naive and naive engines in lockstep.
     let mut raw_cases = 0usize;
-    if (prop == "C03" || prop == "C06") && o.replay.is_none() {
+    if (prop == "C03" || prop == "C06" || prop == "C14") && o.replay.is_none() {
         let threads_mode = prop == "C06";
         let kinds = [("Vec", "vec-of"), ("Set", "set-of")];
         let mut progs: Vec<(String, Vec<String>, Vec<String>)> = Vec::new();
+        // the order in which container KINDS are first declared decides the order of the per-kind
+        // environments (a closure computed environment by environment is order-sensitive)
+        for pre in ["", "(sort PreS (Set i64))\n", "(sort PreV (Vec i64))\n"] {
         for depth in 2..=4usize {
             for mask in 0..(1usize << depth.min(3)) {
-                let mut setup = String::from("(sort E)\n");
+                let mut setup = format!("{pre}(sort E)\n");
                 let mut sort_names = vec!["E".to_string()];
                 for lvl in 0..depth {
                     let (k, _) = kinds[(mask >> (lvl.min(2))) & 1];
@@ -231,6 +235,7 @@ fn main() {
                 steps2.insert(2, pad);
                 progs.push((setup, steps2, probes));
             }
+        }
         }
         for (setup, steps, probes) in &progs {
             raw_cases += 1;
@@ -279,7 +284,7 @@ fn main() {
                     }
                 }
                 if let Some(dm) = diff {
-                    viols.push(Viol { what: format!("nested containers, after `{st}`: {dm}"), key: if threads_mode { "C06-threads-differ".into() } else { "C03-semi-vs-naive".into() }, program: format!("{setup}{done}"), at: k });
+                    viols.push(Viol { what: format!("nested containers, after `{st}`: {dm}"), key: if threads_mode { "C06-threads-differ".into() } else if prop == "C14" { "C14-semi-vs-naive".into() } else { "C03-semi-vs-naive".into() }, program: format!("{setup}{done}"), at: k });
                     break 'steps;
                 }
             }
